@@ -291,6 +291,8 @@ func (w *world) env(e replay.Entry) {
 		})
 	case "pull":
 		w.s.Mutate(pkgKey, func(u *unstructured.Unstructured) { _ = unstructured.SetNestedField(u.Object, e.O, "spec", "packagePullPolicy") })
+	case "forgetid":
+		w.s.Mutate(pkgKey, func(u *unstructured.Unstructured) { unstructured.RemoveNestedField(u.Object, "status", "currentIdentifier") })
 	case "reg":
 		w.reg[e.O] = e.F
 	case "finalize":
